@@ -85,7 +85,8 @@ def wrapper_rule(chk):
 
 
 def _norm_src(t: str) -> str:
-    return t.replace("t.qbits_tensor()", "t")
+    from ..core import CanonStr
+    return CanonStr(t.replace("t.qbits_tensor()", "t"))
 
 
 def moves_rule(chk):
